@@ -51,7 +51,8 @@ func (self ValueAnyObject) IsEqual(other Value) (bool, *Interrupt) {
 		}
 	}
 
-	return true, nil
+	// a key that only exists on the other side makes the objects differ
+	return len(self.FieldsInternal) == len(otherObj.FieldsInternal), nil
 }
 
 func (self ValueAnyObject) Fields() (map[string]*Value, *Interrupt) {
